@@ -234,7 +234,19 @@ def r5_random_chance(ctx):
         def gb(interp, env, f, args, drawn=drawn):
             draws.append((load(interp, env, args[0]), load(interp, env, args[1])))
             return drawn
-        table = {"rand::rng::Rng::gen_bool": gb, "mahf::state::State::random_mut": Sym("state-rng")}
+        def bern_new(interp, env, f, args):
+            from absint import ok
+            return ok(Sym("bernoulli-of", {0: load(interp, env, args[0])}))
+
+        def bern_sample(interp, env, f, args, drawn=drawn):
+            # `Bernoulli::new(p).unwrap().sample(rng)` / `rng.sample(Bernoulli::new(p).unwrap())` is the body of `gen_bool(p)`
+            d_, r_ = (load(interp, env, args[0]), load(interp, env, args[1])) if f.get("name") == "sample" and f.get("key", "").startswith("rand::distributions") else (load(interp, env, args[1]), load(interp, env, args[0]))
+            if isinstance(d_, Sym) and d_.tag == "bernoulli-of":
+                draws.append((r_, d_.fields.get(0)))
+                return drawn
+            return TOP
+        table = {"rand::rng::Rng::gen_bool": gb, "mahf::state::State::random_mut": Sym("state-rng"), "rand::distributions::bernoulli::Bernoulli::new": bern_new,
+                 "rand::distributions::distribution::Distribution::sample": bern_sample, "rand::rng::Rng::sample": bern_sample}
         it = install(Interp(fn.body, chain(mk_oracle(table), coll_oracle, std_oracle), [Sym("self", {pi: Sym("field:p")}), Sym("problem"), Sym("state")], facts=F, max_visits=6))
         for p_ in it.run():
             if p_.end != "return" or not (isinstance(p_.ret, Agg) and p_.ret.variant == "Ok") or p_.ret.fields[0] is not drawn:
